@@ -73,6 +73,27 @@ def case_fn(case: dict, d):
     return runs
 
 
+def sibling_doc(doc: dict) -> dict:
+    """Another version of the SAME API: the same schema names, operation ids, tags and status codes, but every description in other
+    words and every named schema of another nature.  Generated first in the warm process: whatever the generator remembers per name
+    or per status code across calls (memo tables, registries, module-level dicts) must not leak into the generation that is judged."""
+    from .C05 import shadow_doc
+    d = shadow_doc(doc)
+
+    def walk(x):
+        if isinstance(x, dict):
+            for k, v in list(x.items()):
+                if k in ("description", "summary", "title") and isinstance(v, str):
+                    x[k] = "Formerly " + " ".join(reversed(v.split())) if v else "Formerly"
+                else:
+                    walk(v)
+        elif isinstance(x, list):
+            for v in x:
+                walk(v)
+    walk(d)
+    return d
+
+
 def drop_undeclared_declarations(doc: dict, r) -> dict:
     """Make some path variables undeclared (legal: the generator adds them) - F18's feature."""
     d = json.loads(json.dumps(doc))
@@ -123,9 +144,14 @@ def check(run: Run, ctx) -> None:
                 "tags": {"type": "array", "items": {"type": "object", "properties": {"k": {"type": "string"}, "v": {"type": "integer"}}}},
                 "lid": {"type": "object", "properties": {"hinged": {"type": "boolean"}}},
                 "label": {"type": "string"}}}
+        # error statuses that the generator's own status table does not know, described in the document's words
+        for item in doc["paths"].values():
+            for m, op in item.items():
+                if isinstance(op, dict) and m != "parameters" and r.random() < 0.5:
+                    op.setdefault("responses", {})[r.choice(["499", "520", "599", "430"])] = {"description": r.choice(["Client Closed Request", "Origin Error", "Quota Frozen", "Gone Fishing"])}
         pkg, core = [("pkg.client", None), ("client", "core"), ("a.b.client", "a.b.core")][i % 3]
         # generate ; generate(force=False) is checked where no recorded finding makes it fail: embedded core (F33/F21), no duplicate ids (F19)
-        cases.append({"id": f"c09-{i}", "doc": doc, "warm_doc": gs.gen_spec(rng(f"C09:warm:{i}"), gs.Opts(mainstream=True)), "package": pkg, "core": core,
+        cases.append({"id": f"c09-{i}", "doc": doc, "warm_doc": gs.gen_spec(rng(f"C09:warm:{i}"), gs.Opts(mainstream=True)) if i % 2 else sibling_doc(doc), "package": pkg, "core": core,
                       "undeclared_path_vars": undeclared_path_vars(doc), "rerun": core is None})
     results = e2e.run_cases("vf.props.C09:case_fn", cases, workers=8)
     for case, res in zip(cases, results):
